@@ -728,6 +728,7 @@ impl ParserListener for Screen {
                         .entry(self.columns - 1)
                         .or_insert(default_char);
                     last.data = last.data.nfc().collect::<String>() + &char.to_string();
+                    self.dirty.insert(self.cursor.y - 1);
                 }
             } else {
                 // Unprintable character or doesn't advance the cursor:
